@@ -66,6 +66,15 @@ CLAIMED = {
               "The six operators of tuple_operators return the same comparison of the member tuples; hash() hashes the whole member tuple."),
         note=TRUST + " std::hash respects == and std::tuple comparison is lexicographic are assumed; 'up to rare collisions' is statistical and not decided.",
         ref="5 (C16)", technique="CBMC function contracts (DFCC), bit-vector lemmas on the extracted combiner, index recursion for template recursion"),
+    "C20": dict(
+        text=("Modular proof over abstract positions: every member of enumerate_proxy / its iterator (constructor, both operator*, pre- and "
+              "post-increment, operator!=, begin, end), detail::enumerate, the four enumerate overloads, reverse_proxy, detail::reverse and the five reverse "
+              "overloads are extracted and verified by contract (begin is (first, 0); ++ advances position and index together; != compares positions; "
+              "the lvalue overloads span the container in place, the rvalue overloads own it). Iteration lemmas closed by loop invariants show that a "
+              "range-for over enumerate(c) and a hand-written *it++ loop visit positions 0..n-1 once each with index == position, and that reverse(c) "
+              "visits n-1..0, for every n including 0. The iterator accessors of fixed_vector (a listed container kind) are verified with it."),
+        note=TRUST + " Aliasing of lvalue ranges and lifetime of temporaries follow from declared member types, which are read from the source and reported as static facts, not obligations; std::reverse_iterator is a stub.",
+        ref="5 (C20)", technique="CBMC function contracts (DFCC) over abstract iterator positions with loop-invariant iteration lemmas"),
     "C07": dict(
         text=("Same functions as C06, abstract-view postconditions: appends add at the end, erase removes one element and shifts the tail, "
               "positional emplace inserts before pos, copy yields equal elements on independent storage, move/assignment transfer the whole "
